@@ -462,7 +462,8 @@ theorem run_ok {c : Cfg} {U : List (Bytes × Bytes)} (hU : Univ c.kind U) :
 /-! ### the key universe of an operation list -/
 
 /-- every well-formed key is exactly one multihash / CID: parsing it as a stored record gives the key
-    back and no trailing bytes (automatic for the multihash primary) -/
+    back and no trailing bytes (`keysExact_all`: always true since the repair of defect D30 — both
+    `multihash.Decode` and the repaired `CIDPrimary.IndexKey` reject trailing bytes) -/
 def KeysExact (kind : PKind) (ops : List SOp) : Prop :=
   ∀ p ∈ digestsOf kind ops, readNode kind p.1 = some (p.1, [])
 
@@ -492,6 +493,10 @@ theorem mem_digestsOf {kind : PKind} {ops : List SOp} {op : SOp} {k dig : Bytes}
 theorem keysExact_mh (ops : List SOp) : KeysExact .mh ops := by
   intro p hp
   exact readNode_mh_exact p.1 p.2 (keyClass_ok (digestsOf_cls hp)).1
+
+theorem keysExact_all (kind : PKind) (ops : List SOp) : KeysExact kind ops := by
+  intro p hp
+  exact readNode_exact kind p.1 p.2 (keyClass_ok (digestsOf_cls hp)).1
 
 theorem univ_of_keysOK {kind : PKind} {ops : List SOp} (hk : KeysOK kind ops) (hx : KeysExact kind ops) :
     Univ kind (digestsOf kind ops) :=
@@ -610,5 +615,12 @@ theorem store_refines_map_mh (c : Cfg) (hc : c.Legal) (hkind : c.kind = .mh) (op
     (hs : SizesOK ops) (s : SState) (hi : initS c = some s) :
     (runS s ops).2 = (specRun c.kind c.imm [] ops).2 :=
   store_refines_map_exact c hc ops ha hk (by rw [hkind]; exact keysExact_mh ops) hs s hi
+
+/-- the store refines the map: every call returns what the same call returns on an in-memory map -/
+theorem store_refines_map (c : Cfg) (hc : c.Legal) (ops : List SOp)
+    (ha : ∀ op ∈ ops, op.isC01 = true) (hk : KeysOK c.kind ops)
+    (hs : SizesOK ops) (s : SState) (hi : initS c = some s) :
+    (runS s ops).2 = (specRun c.kind c.imm [] ops).2 :=
+  store_refines_map_exact c hc ops ha hk (keysExact_all c.kind ops) hs s hi
 
 end Sth
